@@ -207,10 +207,19 @@ def fabName (n : Nat) : String :=
   if n / 26 = 0 then String.ofList ['_', letter]
   else String.ofList ('_' :: letter :: (toString (n / 26)).toList)
 
+/-- total length of the names of a list. -/
+def sumLen : VarList → Nat
+  | [] => 0
+  | (n, _) :: vl => n.length + sumLen vl
+
+/-- a name longer than every name of the list. -/
+def longName (vl : VarList) : String := String.ofList (List.replicate (sumLen vl + 1) '_')
+
 /-- `make_new_var_name/6`: the first fabricated name from `n` on that is not a name of `vl`.
-`fuel` bounds the number of clashes (`vl.length + 1` suffices). -/
+`fuel` bounds the number of clashes; `vl.length + 1` candidates always contain a free one, the
+fall-back for exhausted fuel (never reached with that fuel) is a name that is free by its length. -/
 def makeNewVarName : Nat → Nat → VarList → String × Nat
-  | 0, n, _ => (fabName n, n + 1)
+  | 0, n, vl => (longName vl, n + 1)
   | fuel + 1, n, vl =>
       if containsName vl (fabName n) then makeNewVarName fuel (n + 1) vl else (fabName n, n + 1)
 
